@@ -158,6 +158,48 @@ def run(ctx):
                    (f.short, " -> ".join(x.short for x in (cg.call_chain(entries[0], lambda g: g is f) or [])),
                     "" if lock_attrs else " (the class has no lock at all)"), unlocked_path=where.short if where else "")
 
+    # ---------------------------------------------------------------- R4
+    r = ctx.rule("C19-R4", "LOCKSET", "the spinner thread is never joined while holding a lock that the spinner "
+                 "itself takes (it would wait for the lock forever and the join would never return)", reference=2)
+    thread_locks = set()
+    for f in [x for x in thread_side.values() if x.cls is pi]:
+        for n in walk_no_nested(f.node):
+            if isinstance(n, ast.With):
+                for item in n.items:
+                    if is_self_attr(item.context_expr) and item.context_expr.attr in lock_attrs:
+                        thread_locks.add(item.context_expr.attr)
+    joins = []
+    for m in methods.values():
+        for c in q.calls(m):
+            if isinstance(c.func, ast.Attribute) and c.func.attr == "join" and is_self_attr(c.func.value, thread_attr):
+                joins.append((m, c))
+    ctx.require(joins, "the spinner thread is never joined")
+    for m, c in joins:
+        held = [a.items[0].context_expr.attr for a in _anc(c) if isinstance(a, ast.With) and is_self_attr(a.items[0].context_expr) and a.items[0].context_expr.attr in thread_locks]
+        if held:
+            r.fail(m, c, norm(c) + " under self." + held[0], "%s joins the spinner thread while holding self.%s, which the spinner needs to draw: if the spinner is past its "
+                   "stop test the caller waits forever" % (m.short, held[0]))
+        else:
+            r.ok("%s: join without holding a spinner lock" % m.short)
+
+    # ---------------------------------------------------------------- R5
+    r = ctx.rule("C19-R5", "ORDER", "on a normal exit the spinner is stopped and joined before the end message is "
+                 "drawn (else a late spinner frame follows the end frame)", reference=1)
+    fin = methods.get("finish")
+    ctx.require(fin is not None, "ProgressIndicator.finish missing")
+    cfgf = ctx.cfg(fin)
+    jn = [cfgf.node_of(c) for m, c in joins if m is fin]
+    draws = [cfgf.node_of(c) for c in q.calls(fin) if isinstance(c.func, ast.Attribute) and (c.func.attr == "_display" or (c.func.attr.startswith("write") and is_self_attr(c.func.value)))]
+    if not jn:
+        r.fail(fin, fin.node, "finish does not join", "finish() does not join the spinner thread")
+    else:
+        late = [d for d in draws if any(j.id in cfgf.reach_strict(d.id) for j in jn)]
+        if late:
+            r.fail(fin, late[0].ast, "draw before join: " + norm(late[0].ast), "finish() draws the end frame before the spinner thread is joined: a spinner past its stop test "
+                   "draws one more frame after it")
+        else:
+            r.ok("finish: join precedes every draw")
+
     # ---------------------------------------------------------------- R3
     r = ctx.rule("C19-R3", "ORDER", "in manual mode the interval test precedes the redraw, and a redraw re-arms it", reference=2)
     adv = methods.get("advance")
